@@ -274,6 +274,12 @@ func (s *Sim) oracleQuiescence() {
 				c.violate("C07", "b", "unanswered-"+shape, "client %s: request %d (%s) never received a response although every service request has been answered or timed out", c.Name, r.ID, r.Method)
 			}
 		}
+	}
+	s.checkIntervals(true)
+	for _, c := range s.Clients {
+		if c.State != "open" || c.eofSeen() {
+			continue
+		}
 		if c.Tainted == "" {
 			s.checkConvergence(c)
 		}
@@ -290,7 +296,6 @@ func (s *Sim) oracleQuiescence() {
 			s.violate("C09", "c", "unsubscribed-in-use", "at quiescence %s but event.%s is not subscribed", why, name)
 		}
 	}
-	s.checkIntervals(true)
 	s.accessQuiescence()
 	s.checkGauges(false)
 }
@@ -501,6 +506,12 @@ func (s *Sim) checkConvergence(c *Client) {
 		want := v.Announced.clientJSON(c.Proto)
 		got := c.resJSON(h)
 		if !jsonEqual(want, got) {
+			if sh, bad := c.ivFail[rid]; bad && sh != "stale-snapshot-resent" {
+				// the event list of this resource already failed C03: the copy built
+				// from it is a consequence
+				s.stat("suppressed_followup_violations", 1)
+				continue
+			}
 			shape := "diverged"
 			if h.iv != nil && c.handedBefore(h.iv) {
 				// known finding F-13: a resource that is sent to the same client a second
@@ -646,7 +657,11 @@ func (s *Sim) checkInterval(c *Client, iv *Interval, mustReachTail bool) {
 		sh := "snapshot-unmatched"
 		if c.handedBefore(iv) {
 			sh += "-resent"
+			if s.eventsContiguous(iv, v, mustReachTail) {
+				sh = "stale-snapshot-resent"
+			}
 		}
+		c.ivFail[iv.RID] = sh
 		c.violate("C03", "c", sh, "client %s was handed %s = %s at step %d, which is not a state the service announced", c.Name, iv.RID, iv.Snapshot, iv.StartStep)
 		return
 	}
@@ -660,8 +675,43 @@ func (s *Sim) checkInterval(c *Client, iv *Interval, mustReachTail bool) {
 	}
 	if c.handedBefore(iv) {
 		lastShape += "-resent"
+		if s.eventsContiguous(iv, v, mustReachTail) {
+			// the events are a proper run of the stream; it is the re-sent copy
+			// that does not fit them
+			lastShape, clause = "stale-snapshot-resent", "c"
+		}
 	}
+	c.ivFail[iv.RID] = lastShape
 	c.violate("C03", clause, lastShape, "client %s, resource %s (handed over at step %d): %s", c.Name, iv.RID, iv.StartStep, lastErr)
+}
+
+// eventsContiguous: the delivered events of the interval are, taken by
+// themselves, a contiguous run of the stream (reaching its end if required).
+func (s *Sim) eventsContiguous(iv *Interval, v *Variant, mustReachTail bool) bool {
+	var evs []*StreamEv
+	for _, e := range v.Stream {
+		if e.Kind == "snap" || e.Kind == "reaccess" {
+			continue
+		}
+		evs = append(evs, e)
+	}
+	n := len(iv.Events)
+	for q := 0; q+n <= len(evs); q++ {
+		if mustReachTail && q+n != len(evs) {
+			continue
+		}
+		ok := true
+		for i := 0; i < n; i++ {
+			if iv.Events[i].Name != evs[q+i].Kind || !jsonEqual(iv.Events[i].Data, evs[q+i].clientEventJSON(iv.Proto)) {
+				ok = false
+				break
+			}
+		}
+		if ok {
+			return true
+		}
+	}
+	return false
 }
 
 func (s *Sim) diagnoseMismatch(iv *Interval, i int, want func(j int) (string, string, bool)) (string, string) {
